@@ -236,11 +236,17 @@ Proof.
 Qed.
 
 (* ------------------------------------------------------------ momentum store range *)
+Lemma mom_range_eq height higher count : mom_range height higher count = mom_range_hand height higher count.
+Proof.
+  unfold mom_range, GetMomentumsByHeight_range, mom_range_hand, wrapU, u64. change (2 ^ 64) with two64.
+  destruct higher; [reflexivity|]. destruct (_ <=? count); reflexivity.
+Qed.
+
 Lemma mom_range_alloc_bounded height higher count :
   in_u64 height -> 0 <= count <= RpcMaxCountSize -> (higher = false -> height < two64 - 1) ->
   let '(from, to) := mom_range height higher count in u64 (to - from) <= count.
 Proof.
-  unfold in_u64, RpcMaxCountSize, two64. intros Hh Hc Hw. unfold mom_range.
+  unfold in_u64, RpcMaxCountSize, two64. intros Hh Hc Hw. rewrite mom_range_eq. unfold mom_range_hand.
   destruct higher.
   - unfold u64, two64. lia.
   - specialize (Hw eq_refl). rewrite (u64_small (height + 1)) by (unfold two64; lia).
@@ -279,7 +285,7 @@ Proof.
   destruct (height =? 0) eqn:E1; [inversion Hr; left; split; [reflexivity|lia]|].
   destruct (RpcMaxCountSize <? count) eqn:E2; [inversion Hr; right; left; split; [reflexivity|lia]|].
   right; right. unfold RpcMaxCountSize in *.
-  unfold mom_store_range, mom_range in Hr.
+  unfold mom_store_range in Hr. rewrite mom_range_eq in Hr. unfold mom_range_hand in Hr.
   assert (Hcap : u64 (u64 (height + count) - height) = count).
   { unfold u64, two64 in *. lia. }
   rewrite Hcap in Hr. unfold alloc_limit in Hr.
